@@ -189,6 +189,24 @@ func (w *wireReader) Read(p []byte) (int, error) {
 	return n, nil
 }
 
+// Inject delivers a message to the subscribers of a topic as if some client had published
+// it (it is not added to the publish log).
+func (b *Broker) Inject(topic string, payload []byte) {
+	tl := len(topic)
+	vb := append([]byte{byte(tl >> 8), byte(tl)}, []byte(topic)...)
+	vb = append(vb, payload...)
+	pkt := append([]byte{0x30}, encLen(len(vb))...)
+	pkt = append(pkt, vb...)
+	b.mu.Lock()
+	targets := append([]*conn{}, b.subs[topic]...)
+	b.queued += len(targets)
+	b.mu.Unlock()
+	for _, t := range targets {
+		t.topic <- topic
+		t.queue <- pkt
+	}
+}
+
 // SetDelay installs the delivery delay function.
 func (b *Broker) SetDelay(f func(subscriber, topic string) time.Duration) {
 	b.mu.Lock()
